@@ -54,7 +54,7 @@ CORR = {"overpay_one": corrupt_overpay, "third_party_debited": corrupt_third_par
 
 
 def run_shard(acc, prop, tier, seed, shard, nshards, **kw):
-    _w.shard(acc, PROP, tier, seed, shard, nshards, factory, WEIGHTS, (12, (120, 220)), (500, (120, 300)), CORR)
+    _w.shard(acc, PROP, tier, seed, shard, nshards, factory, WEIGHTS, (12, (120, 220)), (220, (120, 300)), CORR)
 
 
 def floors(acc, tier):
